@@ -737,6 +737,25 @@ def first_round(ctx, option, row):
     return cin, tc, out, cap
 
 
+def extreme_rows(rows):
+    """rows at the extremes of the columns that drive the crop/greenhouse formulas (zero, smallest positive and largest cropland,
+    smallest/largest crop output, population): always part of the quick sample"""
+    out = []
+    for col in ("fraction_crop_area", "crop_area_1000ha", "crop_kcals", "population", "max_area_fraction"):
+        vals = sorted(((float(r[col]), r["iso3"]) for r in rows if col in r), key=lambda t: t[0])
+        if not vals:
+            continue
+        pos = [v for v in vals if v[0] > 0]
+        pick = [vals[0][1], vals[-1][1]] + [v[1] for v in pos[:3]]
+        out += pick
+    keep, seen = [], set()
+    for r in rows:
+        if r["iso3"] in out and r["iso3"] not in seen:
+            seen.add(r["iso3"])
+            keep.append(r)
+    return keep
+
+
 def check_real_rows(ctx, rows, options, prop):
     """compute_parameters_first_round on real rows x option sets; every supply series against model and spec"""
     jobs = []
